@@ -84,9 +84,11 @@ package statefulset
 //@   ensures [C06] result == sprintf("%s-%s-%d", claim.Name, set.Name, ordinal)
 //@ func setPodRevision
 //@   requires pod != nil
-//@   modifies pod.Labels, all(map[string]string)
-//@   ensures pod.Labels != nil && revOf(pod) == revision
-//@   ensures [C06] forall k string :: {pod.Labels[k]} k != RevisionLabel ==> pod.Labels[k] == old(pod.Labels[k]) && pod.Labels.has(k) == old(pod.Labels.has(k))
+//@   modifies pod.Labels, map(pod.Labels)
+//@   ensures pod.Labels != nil && pod.Labels.has(RevisionLabel) && revOf(pod) == revision
+//@   ensures old(pod.Labels) != nil ==> pod.Labels == old(pod.Labels)
+//@   ensures old(pod.Labels) == nil ==> fresh(pod.Labels)
+//@   ensures [C06] forall k string :: {pod.Labels.has(k)} k != RevisionLabel ==> pod.Labels.has(k) == old(pod.Labels != nil && pod.Labels.has(k)) && (pod.Labels.has(k) ==> pod.Labels[k] == old(pod.Labels[k]))
 
 // ---- reconcile vocabulary (ghost state shared between updateStatefulSet and the pod control interface) ----
 //@ ghost global gSnap []*v1.Pod      -- the pods the reconcile was given (the snapshot)
@@ -175,25 +177,126 @@ package statefulset
 //@   ensures err == nil ==> (restored.Spec.UpdateStrategy.RollingUpdate == nil) == (set.Spec.UpdateStrategy.RollingUpdate == nil)
 //@   ensures err == nil && set.Spec.UpdateStrategy.RollingUpdate != nil ==> fresh(restored.Spec.UpdateStrategy.RollingUpdate) && (restored.Spec.UpdateStrategy.RollingUpdate.Partition == nil) == (set.Spec.UpdateStrategy.RollingUpdate.Partition == nil)
 //@   ensures err == nil && set.Spec.UpdateStrategy.RollingUpdate != nil && set.Spec.UpdateStrategy.RollingUpdate.Partition != nil ==> fresh(restored.Spec.UpdateStrategy.RollingUpdate.Partition) && deref(restored.Spec.UpdateStrategy.RollingUpdate.Partition) == deref(set.Spec.UpdateStrategy.RollingUpdate.Partition)
+//@   ensures err == nil ==> (restored.Spec.Selector == nil) == (set.Spec.Selector == nil)
+//@   ensures err == nil && set.Spec.Selector != nil ==> fresh(restored.Spec.Selector)
+//@   ensures err == nil ==> (forall t int :: {restored.Spec.VolumeClaimTemplates[t].Labels} 0 <= t && t < len(restored.Spec.VolumeClaimTemplates) ==> restored.Spec.VolumeClaimTemplates[t].Labels == nil || fresh(restored.Spec.VolumeClaimTemplates[t].Labels))
 
 // usesCurrent: the condition under which newVersionedStatefulSetPod builds the pod from the current revision
 //@ spec func usesCurrent(cs *apps.StatefulSet, ordinal int) bool = (cs.Spec.UpdateStrategy.Type == "RollingUpdate" && cs.Spec.UpdateStrategy.RollingUpdate == nil && ordinal < cs.Status.CurrentReplicas) || (cs.Spec.UpdateStrategy.RollingUpdate != nil && cs.Spec.UpdateStrategy.RollingUpdate.Partition != nil && ordinal < deref(cs.Spec.UpdateStrategy.RollingUpdate.Partition))
 
+// The label maps of the volume claim templates of the two restored sets (getPersistentVolumeClaims writes the selector's
+// labels into them in place) were allocated by this reconcile, between these two allocation marks:
+//@ ghost global gTmplLo int
+//@ ghost global gTmplHi int
 //@ func newVersionedStatefulSetPod
-//@   trusted "temporarily assumed: built from newStatefulSetPod (see C06)"
-//@   requires currentSet != nil && updateSet != nil
-//@   requires 0 <= ordinal
-//@   ensures result != nil && fresh(result) && ordOf(result) == ordinal && !isCreatedS(result) && !isTerminatingS(result) && allocated(result.Labels)
+//@   requires currentSet != nil && updateSet != nil && currentSet.Spec.Selector != nil && updateSet.Spec.Selector != nil
+//@   requires 0 <= ordinal && ordinal <= MaxInt32
+//@   requires tmplfresh: forall t int :: {currentSet.Spec.VolumeClaimTemplates[t].Labels} 0 <= t && t < len(currentSet.Spec.VolumeClaimTemplates) ==> currentSet.Spec.VolumeClaimTemplates[t].Labels == nil || (gTmplLo <= currentSet.Spec.VolumeClaimTemplates[t].Labels && currentSet.Spec.VolumeClaimTemplates[t].Labels < gTmplHi)
+//@   requires tmplfresh2: forall t int :: {updateSet.Spec.VolumeClaimTemplates[t].Labels} 0 <= t && t < len(updateSet.Spec.VolumeClaimTemplates) ==> updateSet.Spec.VolumeClaimTemplates[t].Labels == nil || (gTmplLo <= updateSet.Spec.VolumeClaimTemplates[t].Labels && updateSet.Spec.VolumeClaimTemplates[t].Labels < gTmplHi)
+//@   modifies maps(m map[string]string | gTmplLo <= m && m < gTmplHi)
+//@   ensures result != nil && fresh(result) && ordOf(result) == ordinal && !isCreatedS(result) && !isTerminatingS(result) && allocated(result.Labels) && result.Labels != nil && fresh(result.Labels)
 //@   ensures [C07] revOf(result) == ite(usesCurrent(currentSet, ordinal), currentRevision, updateRevision)
+//@   ensures [C06] identity: podIdentity(ite(usesCurrent(currentSet, ordinal), currentSet, updateSet), result, ordinal)
+//@   ensures [C06] storage: podStorage(ite(usesCurrent(currentSet, ordinal), currentSet, updateSet), result, ordinal)
+//@   ensures [C06] revisionlabel: result.Labels.has(RevisionLabel)
+
+// ---- stable identity and storage per ordinal (C06) -------------------------------------------------------------
+// Assumed about the pod-name codec (fmt.Sprintf "%s-%d" against the regular expression and strconv.ParseInt of
+// getParentNameAndOrdinal; outside the translator's reach, validated by a bounded conformance run): a name built for
+// ordinal i decodes to parent and i.
+//@ axiom podname_roundtrip: forall n string, i int :: {sprintf("%s-%d", n, i)} 0 <= i && i <= MaxInt32 ==> ordName(sprintf("%s-%d", n, i)) == i && parentName(sprintf("%s-%d", n, i)) == n
+//@ spec func pvcName(t string, s *apps.StatefulSet, o int) string = sprintf("%s-%s-%d", t, s.Name, o)
+//@ spec func podIdentity(s *apps.StatefulSet, p *v1.Pod, o int) bool = p.Name == sprintf("%s-%d", s.Name, o) && p.Namespace == s.Namespace && p.Spec.Hostname == p.Name && p.Spec.Subdomain == s.Spec.ServiceName && p.Labels != nil && p.Labels.has(PodNameLabel) && p.Labels[PodNameLabel] == p.Name && len(p.OwnerReferences) == 1 && p.OwnerReferences[0].UID == s.UID && p.OwnerReferences[0].Name == s.Name && p.OwnerReferences[0].Kind == "StatefulSet" && p.OwnerReferences[0].Controller != nil && deref(p.OwnerReferences[0].Controller)
+//@ spec func boundTo(p *v1.Pod, j int, t string, claim string) bool = 0 <= j && j < len(p.Spec.Volumes) && p.Spec.Volumes[j].Name == t && p.Spec.Volumes[j].VolumeSource.PersistentVolumeClaim != nil && p.Spec.Volumes[j].VolumeSource.PersistentVolumeClaim.ClaimName == claim
+//@ spec func podStorage(s *apps.StatefulSet, p *v1.Pod, o int) bool = forall t int :: {s.Spec.VolumeClaimTemplates[t].Name} 0 <= t && t < len(s.Spec.VolumeClaimTemplates) ==> (exists j int :: {p.Spec.Volumes[j]} boundTo(p, j, s.Spec.VolumeClaimTemplates[t].Name, pvcName(s.Spec.VolumeClaimTemplates[t].Name, s, o)))
+// tmplLabels(s, m): m is the label map of one of s's volume claim templates (getPersistentVolumeClaims writes the selector's labels into those maps in place)
+//@ spec func tmplLabels(s *apps.StatefulSet, m gomap[string]string) bool = exists t int :: {s.Spec.VolumeClaimTemplates[t].Labels} 0 <= t && t < len(s.Spec.VolumeClaimTemplates) && s.Spec.VolumeClaimTemplates[t].Labels == m
+//@ spec func coversSelector(s *apps.StatefulSet, m map[string]string) bool = forall k string :: {s.Spec.Selector.MatchLabels.has(k)} s.Spec.Selector.MatchLabels.has(k) ==> m != nil && m.has(k) && m[k] == s.Spec.Selector.MatchLabels[k]
+
+//@ extern k8s.io/apimachinery/pkg/apis/meta/v1:NewControllerRef
+//@   params owner, gvk
+//@   requires owner != nil
+//@   ensures result != nil && fresh(result) && result.Name == metaOf(owner).Name && result.UID == metaOf(owner).UID && result.Kind == gvk.Kind
+//@   ensures result.Controller != nil && fresh(result.Controller) && deref(result.Controller) && result.BlockOwnerDeletion != nil && fresh(result.BlockOwnerDeletion) && deref(result.BlockOwnerDeletion)
+
+//@ func getPersistentVolumeClaims
+//@   requires set != nil && pod != nil && set.Spec.Selector != nil
+//@   modifies maps(m map[string]string | tmplLabels(set, m))
+//@   ensures result != nil && fresh(result)
+//@   ensures [C06] claimnames: forall t int :: {set.Spec.VolumeClaimTemplates[t].Name} 0 <= t && t < len(set.Spec.VolumeClaimTemplates) ==> result.has(set.Spec.VolumeClaimTemplates[t].Name) && result[set.Spec.VolumeClaimTemplates[t].Name].Name == pvcName(set.Spec.VolumeClaimTemplates[t].Name, set, ordOf(pod)) && result[set.Spec.VolumeClaimTemplates[t].Name].Namespace == set.Namespace
+//@   ensures [C06] onlytemplates: forall k string :: {result.has(k)} result.has(k) ==> (exists t int :: {set.Spec.VolumeClaimTemplates[t].Name} 0 <= t && t < len(set.Spec.VolumeClaimTemplates) && set.Spec.VolumeClaimTemplates[t].Name == k)
+//@   ensures [C06] claimlabels: forall k string :: {result.has(k)} result.has(k) ==> coversSelector(set, result[k].Labels)
+//@   ensures selectorkept: dom(set.Spec.Selector.MatchLabels) == old(dom(set.Spec.Selector.MatchLabels)) && vals(set.Spec.Selector.MatchLabels) == old(vals(set.Spec.Selector.MatchLabels))
+//@   loop 1 "range templates" frame none
+//@     invariant claims != nil && fresh(claims) && 0 <= i && i <= len(templates)
+//@     invariant [C06] claimkeys: forall t int :: {templates[t].Name} 0 <= t && t < i ==> claims.has(templates[t].Name)
+//@     invariant [C06] claimnames: forall k string :: {claims.has(k)} claims.has(k) ==> claims[k].Name == pvcName(k, set, ordOf(pod)) && claims[k].Namespace == set.Namespace
+//@     invariant [C06] onlytemplates: forall k string :: {claims.has(k)} claims.has(k) ==> (exists t int :: {templates[t].Name} 0 <= t && t < i && templates[t].Name == k)
+//@     invariant [C06] claimlabels: forall k string :: {claims.has(k)} claims.has(k) ==> coversSelector(set, claims[k].Labels)
+//@     invariant selectorkept: dom(set.Spec.Selector.MatchLabels) == old(dom(set.Spec.Selector.MatchLabels)) && vals(set.Spec.Selector.MatchLabels) == old(vals(set.Spec.Selector.MatchLabels))
+//@   loop 2 "range set.Spec.Selector.MatchLabels" visited V frame none
+//@     invariant claim.Labels != nil
+//@     invariant [C06] forall k string :: {V[k]} V[k] ==> claim.Labels.has(k) && claim.Labels[k] == set.Spec.Selector.MatchLabels[k]
+//@     invariant [C06] claimlabels: forall k string :: {claims.has(k)} claims.has(k) ==> coversSelector(set, claims[k].Labels)
+//@     invariant selectorkept: dom(set.Spec.Selector.MatchLabels) == old(dom(set.Spec.Selector.MatchLabels)) && vals(set.Spec.Selector.MatchLabels) == old(vals(set.Spec.Selector.MatchLabels))
+
+//@ func updateStorage
+//@   requires set != nil && pod != nil && set.Spec.Selector != nil
+//@   modifies pod.Spec, maps(m map[string]string | tmplLabels(set, m))
+//@   ensures [C06] storage: podStorage(set, pod, ordOf(pod))
+//@   ensures pod.Spec.Hostname == old(pod.Spec.Hostname) && pod.Spec.Subdomain == old(pod.Spec.Subdomain)
+//@   ghost var W map[string]int   -- position in newVolumes of the volume made for a claim key (witness)
+//@   at loopend 1: ghost W = store(W, name, len(newVolumes) - 1)
+//@   loop 1 "range claims" visited V
+//@     invariant fresh(claims) && claims != nil
+//@     invariant [C06] bound: forall k string :: {V[k]} V[k] ==> boundTo2(newVolumes, W[k], k, claims[k].Name)
+//@   loop 2 "range currentVolumes"
+//@     invariant [C06] bound: forall k string :: {claims.has(k)} claims.has(k) ==> boundTo2(newVolumes, W[k], k, claims[k].Name)
+//@ spec func boundTo2(vols []v1.Volume, j int, t string, claim string) bool = 0 <= j && j < len(vols) && vols[j].Name == t && allocated(vols[j].VolumeSource.PersistentVolumeClaim) && vols[j].VolumeSource.PersistentVolumeClaim != nil && vols[j].VolumeSource.PersistentVolumeClaim.ClaimName == claim
+
+//@ func updateIdentity
+//@   requires set != nil && pod != nil
+//@   modifies pod.Name, pod.Namespace, pod.Labels, map(pod.Labels)
+//@   ensures [C06] pod.Name == sprintf("%s-%d", set.Name, old(ordOf(pod))) && pod.Namespace == set.Namespace
+//@   ensures [C06] pod.Labels != nil && pod.Labels.has(PodNameLabel) && pod.Labels[PodNameLabel] == pod.Name
+//@   ensures old(pod.Labels) != nil ==> pod.Labels == old(pod.Labels)
+//@   ensures old(pod.Labels) == nil ==> fresh(pod.Labels)
+//@   ensures forall k string :: {pod.Labels.has(k)} k != PodNameLabel ==> pod.Labels.has(k) == old(pod.Labels != nil && pod.Labels.has(k)) && (pod.Labels.has(k) ==> pod.Labels[k] == old(pod.Labels[k]))
+
+//@ func initIdentity
+//@   requires set != nil && pod != nil
+//@   modifies pod.Name, pod.Namespace, pod.Labels, map(pod.Labels), pod.Spec
+//@   ensures [C06] pod.Name == sprintf("%s-%d", set.Name, old(ordOf(pod))) && pod.Namespace == set.Namespace
+//@   ensures [C06] pod.Labels != nil && pod.Labels.has(PodNameLabel) && pod.Labels[PodNameLabel] == pod.Name
+//@   ensures [C06] pod.Spec.Hostname == pod.Name && pod.Spec.Subdomain == set.Spec.ServiceName
+//@   ensures pod.Spec.Volumes == old(pod.Spec.Volumes)
+//@   ensures old(pod.Labels) != nil ==> pod.Labels == old(pod.Labels)
+//@   ensures old(pod.Labels) == nil ==> fresh(pod.Labels)
+//@   ensures forall k string :: {pod.Labels.has(k)} k != PodNameLabel ==> pod.Labels.has(k) == old(pod.Labels != nil && pod.Labels.has(k)) && (pod.Labels.has(k) ==> pod.Labels[k] == old(pod.Labels[k]))
+
+//@ func newStatefulSetPod
+//@   requires set != nil && set.Spec.Selector != nil
+//@   requires 0 <= ordinal && ordinal <= MaxInt32
+//@   modifies maps(m map[string]string | tmplLabels(set, m))
+//@   ensures result != nil && fresh(result)
+//@   ensures ordOf(result) == ordinal
+//@   ensures !isCreatedS(result) && !isTerminatingS(result)
+//@   ensures freshlabels: result.Labels != nil && fresh(result.Labels)
+//@   ensures alloclabels: allocated(result.Labels)
+//@   ensures [C06] identity: podIdentity(set, result, ordinal)
+//@   ensures [C06] storage: podStorage(set, result, ordinal)
 
 //@ func identityMatches
-//@   trusted "temporarily assumed (see C06)"
 //@   requires set != nil && pod != nil
 //@   pure
+//@   ensures [C06] result == (ordOf(pod) >= 0 && set.Name == parentName(pod.Name) && pod.Name == sprintf("%s-%d", set.Name, ordOf(pod)) && pod.Namespace == set.Namespace && ite(pod.Labels != nil && pod.Labels.has(PodNameLabel), pod.Labels[PodNameLabel], "") == pod.Name)
 //@ func storageMatches
-//@   trusted "temporarily assumed (see C06)"
 //@   requires set != nil && pod != nil
 //@   pure
+//@   loop 1 "range pod.Spec.Volumes"
+//@     invariant volumes != nil && fresh(volumes)
+//@   loop 2 "range set.Spec.VolumeClaimTemplates"
+//@     invariant volumes != nil && fresh(volumes)
 
 // partitionOf: the rolling-update partition; an absent block or partition means 0, a negative one selects every ordinal
 //@ spec func partitionOf(s *apps.StatefulSet) int = ite(s.Spec.UpdateStrategy.RollingUpdate == nil || s.Spec.UpdateStrategy.RollingUpdate.Partition == nil, 0, ite(deref(s.Spec.UpdateStrategy.RollingUpdate.Partition) < 0, 0, deref(s.Spec.UpdateStrategy.RollingUpdate.Partition)))
@@ -206,7 +309,7 @@ package statefulset
 //@   results statusp, err
 //@   requires ssc != nil && set != nil && currentRevision != nil && updateRevision != nil
 //@   requires ssc.podControl != nil && ssc.recorder != nil
-//@   requires set.Spec.Replicas != nil && deref(set.Spec.Replicas) >= 0
+//@   requires set.Spec.Replicas != nil && deref(set.Spec.Replicas) >= 0 && set.Spec.Selector != nil
 //@   requires slotsbound: deref(set.Spec.Replicas) + card(slotsAnn(ifaceOf(set, "*apps.StatefulSet"))) <= MaxInt32
 //@   requires podsbound: len(pods) + deref(set.Spec.Replicas) + card(slotsAnn(ifaceOf(set, "*apps.StatefulSet"))) < MaxInt32
 //@   requires snapalloc: forall k int :: {pods[k]} 0 <= k && k < len(pods) ==> pods[k] != nil && allocated(pods[k])
@@ -215,6 +318,8 @@ package statefulset
 //@   profile defaulted requires set.Spec.UpdateStrategy.Type == "RollingUpdate" || set.Spec.UpdateStrategy.Type == "OnDelete"
 //@   at entry: ghost gSnap = pods; ghost gR = deref(set.Spec.Replicas); ghost gStrategy = set.Spec.UpdateStrategy.Type
 //@   at entry: ghost gPartition = partitionOf(set)
+//@   at call ApplyRevision#1 before: ghost gTmplLo = allocMark()
+//@   at call ApplyRevision#2 after: ghost gTmplHi = allocMark()
 //@   at entry: ghost gCurRev = currentRevision.Name; ghost gUpdRev = updateRevision.Name; ghost gMonotonic = set.Spec.PodManagementPolicy != "Parallel"
 //@   at entry: ghost gDeleting = set.DeletionTimestamp != nil; ghost gNact = 0; ghost gActOrd = 0 - 1; ghost gUpdDeletes = 0
 //@   at entry: ghost gCreated = emptyset(); ghost gReplaceDue = emptyset(); ghost gDeleted = emptyset(); ghost gAlloc0 = allocMark()
@@ -256,7 +361,7 @@ package statefulset
 //@   at exit: assert [C12] actionwitnessexit: err == nil && !gDeleting && gUpdDeletes == 0 ==> (gNact >= 1 ==> nCreated >= 1 || firstDel >= 0) && (firstDel >= 0 ==> firstDel < len(pods) && gDeleted[pods[firstDel]])
 //@   at exit: assert [C12] acctliveexit: err == nil && !gDeleting ==> (forall k int :: {pods[k]} {updL[k]} {liveI[k]} 0 <= k && k < len(pods) ==> updL[k] == (updI[k] && !gDeleted[pods[k]]))
 //@   at exit: assert [C12] acctsubexit: err == nil && !gDeleting ==> 0 <= crCur && crCur <= nCreated && 0 <= crUpd && crUpd <= nCreated && (forall k int :: {liveI[k]} 0 <= k && k < len(pods) && (rdyI[k] || curL[k] || updL[k]) ==> liveI[k])
-//@   modifies gWrites, gPodTouch, gCtlFails
+//@   modifies gWrites, gPodTouch, gCtlFails, gTmplLo, gTmplHi
 //@   ensures statusp != nil || err != nil
 //@   ensures statusp != nil ==> fresh(statusp)
 //@   profile defaulted ensures [C09] reported: gCtlFails > old(gCtlFails) ==> err != nil
@@ -291,6 +396,7 @@ package statefulset
 //@     invariant alloc: forall o int :: {replicas[o]} 0 <= o && o < replicaCount ==> allocated(replicas[o])
 //@     invariant [C01,C03,C04,C05,C07,C12,C14] placedord: forall o int :: {replicas[o]} 0 <= o && o < replicaCount && replicas[o] != nil ==> ordOf(replicas[o]) == o && (inSnap(replicas[o]) || isNewP(replicas[o]))
 //@     invariant [C12] labelsalloc: forall o int :: {replicas[o]} 0 <= o && o < replicaCount && replicas[o] != nil ==> allocated(replicas[o].Labels)
+//@     invariant [C12] newlabels: forall o int :: {replicas[o]} 0 <= o && o < replicaCount && replicas[o] != nil && !inSnap(replicas[o]) ==> replicas[o].Labels >= gTmplHi
 //@     invariant [C01,C04] snapdesired: forall o int :: {replicas[o]} 0 <= o && o < replicaCount && replicas[o] != nil && inSnap(replicas[o]) ==> desiredG(o)
 //@     invariant [C01,C04] onlydesired: forall o int :: {replicas[o]} 0 <= o && o < replicaCount && replicas[o] != nil ==> desiredG(o) && (inSnap(replicas[o]) || vacant(o))
 //@     invariant [C01,C04,C05,C07,C14] filled: forall o int :: {replicas[o]} 0 <= o && o < ord && desiredG(o) ==> replicas[o] != nil
@@ -312,6 +418,7 @@ package statefulset
 //@     invariant statusrange: 0 - i <= status.Replicas && status.Replicas <= len(pods) + i && 0 - i <= status.CurrentReplicas && status.CurrentReplicas <= len(pods) + i && 0 - i <= status.UpdatedReplicas && status.UpdatedReplicas <= len(pods) + i
 //@     invariant [C01,C03,C04,C05,C07,C12,C14] placedord: forall o int :: {replicas[o]} {count(gS, 0, o)} 0 <= o && o < replicaCount && replicas[o] != nil ==> ordOf(replicas[o]) == o && (inSnap(replicas[o]) || isNewP(replicas[o]))
 //@     invariant [C12] labelsalloc: forall o int :: {replicas[o]} 0 <= o && o < replicaCount && replicas[o] != nil ==> allocated(replicas[o].Labels)
+//@     invariant [C12] newlabels: forall o int :: {replicas[o]} 0 <= o && o < replicaCount && replicas[o] != nil && !inSnap(replicas[o]) ==> replicas[o].Labels >= gTmplHi
 //@     invariant [C01,C04] snapdesired: forall o int :: {replicas[o]} 0 <= o && o < replicaCount && replicas[o] != nil && inSnap(replicas[o]) ==> desiredG(o)
 //@     invariant [C01,C04] onlydesired: forall o int :: {replicas[o]} 0 <= o && o < replicaCount && replicas[o] != nil ==> desiredG(o)
 //@     invariant [C01,C04] pending: forall o int :: {replicas[o]} i <= o && o < replicaCount && replicas[o] != nil && !inSnap(replicas[o]) ==> vacant(o)
@@ -513,7 +620,7 @@ package statefulset
 //@   ghost var gSyncErr error
 //@   at call Get#1 after: ghost gKey = ifaceStr(item)
 //@   at call sync#1 after: ghost gSyncErr = result
-//@   modifies gAddRL, gForget, gDone, gEnq, gApiFails, gWrites, gPodTouch, gCtlFails, gStatusWrites, gRevCreates, gRevUpdates, gRevDeleted, gRevDelCount, gAlloc0, gNewRev, gRevAdopts, gConfirmed, gPermErr, gAdopts, gReleases, gClaimSrc, gLocalFail
+//@   modifies gAddRL, gForget, gDone, gEnq, gApiFails, gWrites, gPodTouch, gCtlFails, gStatusWrites, gRevCreates, gRevUpdates, gRevDeleted, gRevDelCount, gAlloc0, gTmplLo, gTmplHi, gNewRev, gRevAdopts, gConfirmed, gPermErr, gAdopts, gReleases, gClaimSrc, gLocalFail
 //@   ensures [C09,C16] requeue: result && gSyncErr != nil ==> gAddRL[gKey] && gForget == old(gForget)
 //@   ensures [C09,C16] forget: result && gSyncErr == nil ==> gForget[gKey] && gAddRL == old(gAddRL)
 //@   ensures [C16] done: result ==> gDone[gKey]
@@ -816,7 +923,7 @@ package statefulset
 //@   requires snapphase: forall k int :: {pods[k]} 0 <= k && k < len(pods) ==> isCreatedS(pods[k])
 //@   profile defaulted requires set.Spec.UpdateStrategy.Type == "RollingUpdate" || set.Spec.UpdateStrategy.Type == "OnDelete"
 //@   profile defaulted requires storedvalid: set.Status.ObservedGeneration <= set.Generation
-//@   modifies gApiFails, gWrites, gPodTouch, gCtlFails, gStatusWrites, gRevCreates, gRevUpdates, gRevDeleted, gRevDelCount, gAlloc0, gNewRev
+//@   modifies gApiFails, gWrites, gPodTouch, gCtlFails, gStatusWrites, gRevCreates, gRevUpdates, gRevDeleted, gRevDelCount, gAlloc0, gTmplLo, gTmplHi, gNewRev
 //@   ensures gApiFails >= old(gApiFails) && gWrites >= old(gWrites) && gPodTouch >= old(gPodTouch)
 //@   profile defaulted ensures [C11] deletinghandsoff: set.DeletionTimestamp != nil ==> gPodTouch == old(gPodTouch)
 //@   profile defaulted ensures [C09] podfailuresreported: gCtlFails > old(gCtlFails) ==> result != nil
@@ -834,7 +941,7 @@ package statefulset
 //@   requires snapphase: forall k int :: {pods[k]} 0 <= k && k < len(pods) ==> isCreatedS(pods[k])
 //@   profile defaulted requires set.Spec.UpdateStrategy.Type == "RollingUpdate" || set.Spec.UpdateStrategy.Type == "OnDelete"
 //@   profile defaulted requires storedvalid: set.Status.ObservedGeneration <= set.Generation
-//@   modifies gApiFails, gWrites, gPodTouch, gCtlFails, gStatusWrites, gRevCreates, gRevUpdates, gRevDeleted, gRevDelCount, gAlloc0, gNewRev
+//@   modifies gApiFails, gWrites, gPodTouch, gCtlFails, gStatusWrites, gRevCreates, gRevUpdates, gRevDeleted, gRevDelCount, gAlloc0, gTmplLo, gTmplHi, gNewRev
 //@   ensures gApiFails >= old(gApiFails) && gWrites >= old(gWrites) && gPodTouch >= old(gPodTouch)
 //@   profile defaulted ensures [C11] deletinghandsoff: set.DeletionTimestamp != nil ==> gPodTouch == old(gPodTouch)
 //@   profile defaulted ensures [C10] cacheuntouched: true
@@ -849,7 +956,7 @@ package statefulset
 //@   free requires crdvalid: forall ns string, name string :: {listerSet(ns, name)} listerSet(ns, name) != nil ==> listerSet(ns, name).Spec.Replicas != nil && deref(listerSet(ns, name).Spec.Replicas) >= 0 && listerSet(ns, name).Spec.RevisionHistoryLimit != nil && deref(listerSet(ns, name).Spec.RevisionHistoryLimit) >= 0
 //@   free requires sizebound: forall ns string, name string :: {listerSet(ns, name)} listerSet(ns, name) != nil ==> deref(listerSet(ns, name).Spec.Replicas) + card(slotsAnn(ifaceOf(listerSet(ns, name), "*apps.StatefulSet"))) < 1000000000
 //@   profile defaulted free requires defaultedsets: forall ns string, name string :: {listerSet(ns, name)} listerSet(ns, name) != nil ==> (listerSet(ns, name).Spec.UpdateStrategy.Type == "RollingUpdate" || listerSet(ns, name).Spec.UpdateStrategy.Type == "OnDelete") && listerSet(ns, name).Status.ObservedGeneration <= listerSet(ns, name).Generation
-//@   modifies gApiFails, gWrites, gPodTouch, gCtlFails, gStatusWrites, gRevCreates, gRevUpdates, gRevDeleted, gRevDelCount, gAlloc0, gNewRev, gRevAdopts, gConfirmed, gPermErr, gAdopts, gReleases, gClaimSrc, gLocalFail
+//@   modifies gApiFails, gWrites, gPodTouch, gCtlFails, gStatusWrites, gRevCreates, gRevUpdates, gRevDeleted, gRevDelCount, gAlloc0, gTmplLo, gTmplHi, gNewRev, gRevAdopts, gConfirmed, gPermErr, gAdopts, gReleases, gClaimSrc, gLocalFail
 //@   ensures gApiFails >= old(gApiFails) && gWrites >= old(gWrites) && gPodTouch >= old(gPodTouch)
 //@   profile defaulted ensures [C11] pausednowrite: gSet != nil && pausedS(gSet) ==> gWrites == old(gWrites) && result == nil
 //@   profile defaulted ensures [C11] deletinghandsoff: gSet != nil && gSet.DeletionTimestamp != nil ==> gPodTouch == old(gPodTouch) && gRevAdopts == old(gRevAdopts) && gAdopts == old(gAdopts) && gReleases == old(gReleases)
@@ -878,3 +985,91 @@ package statefulset
 //@   loop 1 "range sets" index j
 //@     invariant forall i int :: {sets[i]} 0 <= i && i < j ==> gEnq[setKey(sets[i])]
 //@     invariant forall k string :: {gEnq[k]} gEnqMid[k] ==> gEnq[k]
+
+// ---- the real pod control: claims before the pod, claim failures abort, claims never deleted or rewritten (C06) ----
+//@ ghost global gClaimsEnsured set[string]   -- names of the claims seen in the cache or created successfully by the current call
+//@ ghost global gPodCreates int               -- pod create calls issued
+//@ ghost global gClaimCreates int             -- claim create calls issued
+//@ extern k8s.io/client-go/listers/core/v1:PersistentVolumeClaimNamespaceLister.Get@realStatefulPodControl.createPersistentVolumeClaims
+//@   params l, name
+//@   results pvc, gerr
+//@   modifies gClaimsEnsured, gApiFails
+//@   ensures errNotFound(gerr) ==> gApiFails == old(gApiFails)
+//@   ensures !errNotFound(gerr) ==> failed(old(gApiFails), gApiFails, gerr)
+//@   ensures gClaimsEnsured == ite(gerr == nil, store(old(gClaimsEnsured), name, true), old(gClaimsEnsured))
+//@ extern k8s.io/client-go/kubernetes/typed/core/v1:PersistentVolumeClaimInterface.Create@realStatefulPodControl.createPersistentVolumeClaims
+//@   params c, ctx, obj, opts
+//@   results created, cerr
+//@   requires obj != nil
+//@   requires [C06] claimidentity: obj.Namespace == set.Namespace && (exists t int :: {set.Spec.VolumeClaimTemplates[t].Name} 0 <= t && t < len(set.Spec.VolumeClaimTemplates) && obj.Name == pvcName(set.Spec.VolumeClaimTemplates[t].Name, set, ordOf(pod)))
+//@   requires [C06] claimlabels: coversSelector(set, obj.Labels)
+//@   modifies gClaimsEnsured, gApiFails, gWrites, gClaimCreates
+//@   ensures failed(old(gApiFails), gApiFails, cerr) && gWrites == old(gWrites) + 1 && gClaimCreates == old(gClaimCreates) + 1
+//@   ensures gClaimsEnsured == ite(cerr == nil, store(old(gClaimsEnsured), obj.Name, true), old(gClaimsEnsured))
+//@ extern k8s.io/client-go/kubernetes/typed/core/v1:PodInterface.Create@realStatefulPodControl.CreateStatefulPod
+//@   params c, ctx, obj, opts
+//@   results created, cerr
+//@   requires obj != nil
+//@   requires [C06] claimsfirst: forall t int :: {set.Spec.VolumeClaimTemplates[t].Name} 0 <= t && t < len(set.Spec.VolumeClaimTemplates) ==> gClaimsEnsured[pvcName(set.Spec.VolumeClaimTemplates[t].Name, set, ordOf(obj))]
+//@   modifies gApiFails, gWrites, gPodCreates
+//@   ensures failed(old(gApiFails), gApiFails, cerr) && gWrites == old(gWrites) + 1 && gPodCreates == old(gPodCreates) + 1
+//@ extern k8s.io/client-go/kubernetes/typed/core/v1:PodInterface.Delete@realStatefulPodControl.DeleteStatefulPod
+//@   params c, ctx, name, opts
+//@   modifies gApiFails, gWrites
+//@   ensures failed(old(gApiFails), gApiFails, result) && gWrites == old(gWrites) + 1
+//@ extern k8s.io/client-go/kubernetes/typed/core/v1:PodInterface.Update@realStatefulPodControl.UpdateStatefulPod
+//@   params c, ctx, obj, opts
+//@   results updated, uerr
+//@   requires obj != nil
+//@   modifies gApiFails, gWrites
+//@   ensures failed(old(gApiFails), gApiFails, uerr) && gWrites == old(gWrites) + 1
+//@ extern k8s.io/client-go/listers/core/v1:PodNamespaceLister.Get@realStatefulPodControl.UpdateStatefulPod
+//@   params l, name
+//@   results p, gerr
+//@   ensures gerr == nil ==> p != nil && allocated(p)
+//@ extern strings:Title
+//@   pure
+//@ extern strings:ToLower
+//@   pure
+
+//@ func realStatefulPodControl.recordPodEvent
+//@   requires spc != nil && set != nil && pod != nil && spc.recorder != nil
+//@   noalloc
+//@ func realStatefulPodControl.recordClaimEvent
+//@   requires spc != nil && set != nil && pod != nil && claim != nil && spc.recorder != nil
+//@   noalloc
+
+//@ func realStatefulPodControl.createPersistentVolumeClaims
+//@   requires spc != nil && set != nil && pod != nil && set.Spec.Selector != nil && spc.pvcLister != nil && spc.client != nil && spc.recorder != nil
+//@   at entry: ghost gClaimsEnsured = emptyset()
+//@   modifies maps(m map[string]string | tmplLabels(set, m)), gClaimsEnsured, gApiFails, gWrites, gClaimCreates
+//@   ensures gApiFails >= old(gApiFails) && gWrites >= old(gWrites) && gClaimCreates >= old(gClaimCreates)
+//@   ensures [C06] allensured: result == nil ==> (forall t int :: {set.Spec.VolumeClaimTemplates[t].Name} 0 <= t && t < len(set.Spec.VolumeClaimTemplates) ==> gClaimsEnsured[pvcName(set.Spec.VolumeClaimTemplates[t].Name, set, ordOf(pod))])
+//@   ensures [C09] origin: result != nil ==> gApiFails > old(gApiFails)
+//@   ensures [C09] reported: gApiFails > old(gApiFails) ==> result != nil
+//@   loop 1 "range getPersistentVolumeClaims(set, pod)" visited V
+//@     invariant gApiFails >= old(gApiFails) && gWrites >= old(gWrites) && gClaimCreates >= old(gClaimCreates)
+//@     invariant [C06] ensuredsofar: len(errs) == 0 ==> (forall k string :: {V[k]} V[k] ==> gClaimsEnsured[pvcName(k, set, ordOf(pod))])
+//@     invariant [C09] errsiff: (len(errs) > 0) == (gApiFails > old(gApiFails))
+
+//@ func realStatefulPodControl.CreateStatefulPod
+//@   requires spc != nil && set != nil && pod != nil && set.Spec.Selector != nil && spc.pvcLister != nil && spc.client != nil && spc.recorder != nil
+//@   modifies maps(m map[string]string | tmplLabels(set, m)), gClaimsEnsured, gApiFails, gWrites, gClaimCreates, gPodCreates
+//@   ensures [C06] claimfailureaborts: gPodCreates == old(gPodCreates) || gPodCreates == old(gPodCreates) + 1
+//@   ensures [C09] origin: result != nil ==> gApiFails > old(gApiFails)
+//@   ensures [C09] reported: gApiFails > old(gApiFails) ==> result != nil
+//@   ensures gWrites >= old(gWrites)
+
+//@ func realStatefulPodControl.DeleteStatefulPod
+//@   requires spc != nil && set != nil && pod != nil && spc.client != nil && spc.recorder != nil
+//@   modifies gApiFails, gWrites
+//@   ensures [C09] origin: (result != nil) == (gApiFails > old(gApiFails))
+//@   ensures [C06] gWrites == old(gWrites) + 1
+
+//@ func realStatefulPodControl.UpdateStatefulPod
+//@   requires spc != nil && set != nil && pod != nil && set.Spec.Selector != nil && spc.pvcLister != nil && spc.podLister != nil && spc.client != nil && spc.recorder != nil
+//@   modifies pod.Name, pod.Namespace, pod.Labels, pod.Spec, all(map[string]string), all(v1.Pod.Spec), all(meta.ObjectMeta.Name), all(meta.ObjectMeta.Namespace), all(meta.ObjectMeta.Labels), gClaimsEnsured, gApiFails, gWrites, gClaimCreates
+//@   ensures gWrites >= old(gWrites) && gApiFails >= old(gApiFails)
+//@   ensures [C09] origin: result != nil ==> gApiFails > old(gApiFails)
+//@   loop 1 "func literal" frame open
+//@     invariant pod != nil && set != nil && gWrites >= old(gWrites) && gApiFails >= old(gApiFails) && (pod == old(pod) || fresh(pod))
